@@ -208,13 +208,20 @@ func (e *Engine) RenderTo(w io.Writer, name string, context map[string]interface
 
 // Load loads a template by name
 func (e *Engine) Load(name string) (*Template, error) {
+	// Use a quick check under read lock first to avoid contention
+	e.mu.RLock()
+	tmpl, ok := e.templates[name]
+	e.mu.RUnlock()
+
+	// A template registered directly (RegisterString, RegisterTemplate, ...) has no
+	// loader it could be re-read from: it is not a cache entry and is served whatever
+	// the cache and auto-reload settings are
+	if ok && tmpl.loader == nil {
+		return tmpl, nil
+	}
+
 	// Only check the cache if caching is enabled
 	if e.environment.cache {
-		// Use a quick check under read lock first to avoid contention
-		e.mu.RLock()
-		tmpl, ok := e.templates[name]
-		e.mu.RUnlock()
-
 		// If template exists in cache
 		if ok {
 			// If auto-reload is disabled, return the cached template immediately
@@ -338,12 +345,11 @@ func (e *Engine) RegisterString(name string, source string) error {
 		loader:       nil, // String templates don't have a loader
 	}
 
-	// Only cache if caching is enabled
-	if e.environment.cache {
-		e.mu.Lock()
-		e.templates[name] = template
-		e.mu.Unlock()
-	}
+	// A registration is kept whatever the cache setting is: there is no loader
+	// that could supply this template again
+	e.mu.Lock()
+	e.templates[name] = template
+	e.mu.Unlock()
 
 	return nil
 }
@@ -393,12 +399,11 @@ func (e *Engine) RegisterTemplate(name string, template *Template) {
 		template.lastModified = time.Now().Unix()
 	}
 
-	// Only cache if caching is enabled
-	if e.environment.cache {
-		e.mu.Lock()
-		e.templates[name] = template
-		e.mu.Unlock()
-	}
+	// A registration is kept whatever the cache setting is: there is no loader
+	// that could supply this template again
+	e.mu.Lock()
+	e.templates[name] = template
+	e.mu.Unlock()
 }
 
 // CompileTemplate compiles a template for faster rendering
